@@ -10,9 +10,25 @@ Open Scope list_scope.
 Definition model_err (e : err) : bool := err_eqb e err_invalid || err_eqb e err_fuel.
 Definition good (l : list perr) : Prop := forall f, In f l -> model_err (pe_err f) = false.
 
+Lemma err_eqb_refl0 : forall e, err_eqb e e = true.
+Proof. intros [c t]. unfold err_eqb. simpl. rewrite String.eqb_refl. destruct c; reflexivity. Qed.
+Lemma pseg_eqb_refl : forall a, pseg_eqb a a = true.
+Proof. destruct a; simpl; [apply String.eqb_refl|apply Nat.eqb_refl]. Qed.
+Lemma path_eqb_refl : forall p, path_eqb p p = true.
+Proof. induction p; simpl; auto. now rewrite pseg_eqb_refl, IHp. Qed.
+Lemma perr_eqb_refl : forall f, perr_eqb f f = true.
+Proof. intros [e p]. unfold perr_eqb. simpl. now rewrite err_eqb_refl0, path_eqb_refl. Qed.
+
+(** The whole development is done twice at once: [nb = false] locates a failure up to list indices
+    ([perr_sim], any schema); [nb = true] locates it exactly ([perr_eqb]) for schemas none of whose
+    fields is run as a batch. *)
+Section Rel.
+Variable nb : bool.
+Definition rel (e f : perr) : bool := if nb then perr_eqb e f else perr_sim e f.
+
 (** [E]: failures raised by the machine; [F]: needed failures of the reference. *)
 Definition ErrsOk (E F : list perr) : Prop :=
-  (forall e, In e E -> exists f, In f F /\ perr_sim e f = true) /\ (F <> [] -> E <> []).
+  (forall e, In e E -> exists f, In f F /\ rel e f = true) /\ (F <> [] -> E <> []).
 
 Lemma ErrsOk_nil : ErrsOk [] [].
 Proof. split; [intros e []|auto]. Qed.
@@ -120,6 +136,15 @@ Section Fail.
   Notation ex := (exec_unit fixed S).
   Notation Pf := (P fixed S fuel).
 
+  Hypothesis NB : nb = true -> forall on o n f,
+    find_object on (s_objects S) = Some o -> find_field n (o_fields o) = Some f -> should_use_batch f = false.
+
+  (** In the exact reading no unit is run as a batch. *)
+  Definition Ub (u : wunit) : Prop := nb = true -> f_batch (u_field u) && u_batch u = false.
+
+  Lemma Ub_false : forall f h sub items on, Ub (mk_unit f h sub items false on).
+  Proof. intros f h sub items on _. simpl. apply andb_false_r. Qed.
+
   Definition xerrs (x : xres) (E : list perr) : Prop :=
     exists rs, Forall2 Pf (x_units x) rs /\ E = x_errs x ++ errs rs.
 
@@ -156,7 +181,7 @@ Section Fail.
     flat_map (fun it => snd (unit_ref S fr u it)) (u_items u).
 
   Definition GU (fr : nat) : Prop :=
-    forall mf u, Datatypes.S fr <= mf -> Datatypes.S fr <= fuel -> Shape (u_items u) ->
+    forall mf u, Datatypes.S fr <= mf -> Datatypes.S fr <= fuel -> Shape (u_items u) -> Ub u ->
       good (unit_fails fr u) ->
       exists E, xerrs (ex mf u) E /\ ErrsOk E (unit_fails fr u).
 
@@ -172,19 +197,20 @@ Section Fail.
 
   (** Units to schedule: pieces of one unit. *)
   Lemma pieces_fail : forall fr u pieces,
-    GU fr -> Datatypes.S fr <= fuel -> Shape (u_items u) ->
-    (forall v, In v pieces -> u_field v = u_field u /\ u_sel v = u_sel u /\ u_sub v = u_sub u) ->
+    GU fr -> Datatypes.S fr <= fuel -> Shape (u_items u) -> Ub u ->
+    (forall v, In v pieces -> u_field v = u_field u /\ u_sel v = u_sel u /\ u_sub v = u_sub u /\ u_batch v = u_batch u) ->
     Permutation (flat_map u_items pieces) (u_items u) ->
     good (unit_fails fr u) ->
     exists E, xerrs (mk_xres [] pieces []) E /\ ErrsOk E (unit_fails fr u).
   Proof.
-    intros fr u pieces HG Hf HS Hsame Hperm Hgood.
+    intros fr u pieces HG Hf HS Hub Hsame Hperm Hgood.
     assert (Hin : forall v it, In v pieces -> In it (u_items v) -> In it (u_items u)).
     { intros v it Hv Hit. eapply Permutation_in; [exact Hperm|]. apply in_flat_map. eauto. }
     assert (Hp : forall v, In v pieces -> exists r, Pf v r /\ ErrsOk (snd r) (unit_fails fr v)).
-    { intros v Hv. destruct (Hsame v Hv) as [E1 [E2 E3]].
+    { intros v Hv. destruct (Hsame v Hv) as [E1 [E2 [E3 E4]]].
       destruct (HG fuel v Hf Hf) as [E [[rs [F He]] Ho]].
       - eapply Shape_sub; [|exact HS]. intros x Hx. eapply Hin; eauto.
+      - intros Hnb. rewrite E1, E4. now apply Hub.
       - intros f Hf'. apply Hgood. unfold unit_fails in *. apply in_flat_map in Hf' as [it [Hit Hff]].
         apply in_flat_map. exists it. split; [eapply Hin; eauto|]. now rewrite <- (unit_ref_same S fr u v E1 E2 E3).
       - eexists. split; [constructor; exact F|]. simpl. rewrite <- He. exact Ho. }
@@ -198,11 +224,11 @@ Section Fail.
     destruct Hall as [rs [F O]]. exists ([] ++ errs rs). split; [exists rs; split; auto|]. simpl.
     eapply ErrsOk_equiv; [|exact O]. intros f. unfold unit_fails. split.
     - intros Hf'. apply in_flat_map in Hf' as [v [Hv Hf']]. apply in_flat_map in Hf' as [it [Hit Hf']].
-      destruct (Hsame v Hv) as [E1 [E2 E3]]. apply in_flat_map. exists it. split; [eapply Hin; eauto|].
+      destruct (Hsame v Hv) as [E1 [E2 [E3 E4]]]. apply in_flat_map. exists it. split; [eapply Hin; eauto|].
       now rewrite <- (unit_ref_same S fr u v E1 E2 E3).
     - intros Hf'. apply in_flat_map in Hf' as [it [Hit Hf']].
       assert (Hit' : In it (flat_map u_items pieces)) by (eapply Permutation_in; [apply Permutation_sym; exact Hperm|exact Hit]).
-      apply in_flat_map in Hit' as [v [Hv Hit']]. destruct (Hsame v Hv) as [E1 [E2 E3]].
+      apply in_flat_map in Hit' as [v [Hv Hit']]. destruct (Hsame v Hv) as [E1 [E2 [E3 E4]]].
       apply in_flat_map. exists v. split; auto. apply in_flat_map. exists it. split; auto.
       now rewrite (unit_ref_same S fr u v E1 E2 E3).
   Qed.
@@ -264,15 +290,30 @@ Section Fail.
   Lemma perr_sim_refl : forall f, perr_sim f f = true.
   Proof. intros [e p]. unfold perr_sim. simpl. now rewrite err_eqb_refl, path_sim_refl. Qed.
 
+  Lemma rel_refl : forall f, rel f f = true.
+  Proof.
+    intros f. unfold rel. destruct (Bool.bool_dec nb true) as [Hnb|Hnb]; [rewrite Hnb; apply perr_eqb_refl|].
+    apply Bool.not_true_is_false in Hnb. rewrite Hnb. apply perr_sim_refl.
+  Qed.
+
+  Lemma split_par_same4 : forall u v, In v (split_par u) ->
+    u_field v = u_field u /\ u_sel v = u_sel u /\ u_sub v = u_sub u /\ u_batch v = u_batch u.
+  Proof.
+    intros u v H. unfold split_par in H. destruct (f_par (u_field u)).
+    - apply split_to_n_same in H. tauto.
+    - destruct H as [<-|[]]. auto.
+  Qed.
+
   (** ** Objects *)
   Lemma per_sel_fail : forall fr mf o nonnil sync it,
+    (exists on, find_object on (s_objects S) = Some o) ->
     GU fr -> Datatypes.S fr <= mf -> Datatypes.S fr <= fuel ->
     (forall x, In x nonnil -> is_obj x) -> Shape nonnil ->
     good (flat_map (fun x : value * path => snd (eval_field S false (eval_obj S fr) o (fields_of (fst x)) (snd x) it)) nonnil) ->
     exists E, xerrs (per_sel (ex mf) o nonnil sync it) E /\
               ErrsOk E (flat_map (fun x : value * path => snd (eval_field S false (eval_obj S fr) o (fields_of (fst x)) (snd x) it)) nonnil).
   Proof.
-    intros fr mf o nonnil sync it HG Hmf Hfu Hobj HS Hgood. unfold per_sel.
+    intros fr mf o nonnil sync it [on Hon] HG Hmf Hfu Hobj HS Hgood. unfold per_sel.
     destruct (String.eqb (s_name (fst it)) "__typename") eqn:Et.
     - exists []. split; [apply xerrs_heap|].
       rewrite flat_map_nil_intro; [apply ErrsOk_nil|]. intros x _. unfold eval_field. cbn [negb andb]. now rewrite Et.
@@ -291,27 +332,29 @@ Section Fail.
         pose proof (f_equal (fun r : (string * json) * list perr => snd r) G) as G2. cbn [snd] in G2.
         symmetry. exact G2. }
       assert (HSd : Shape dests) by (apply Shape_ext; exact HS).
-      assert (Hsync : forall b, exists E, xerrs (ex mf (mk_unit f (fst it) (snd it) dests b (o_name o))) E /\
+      assert (Hsync : exists E, xerrs (ex mf (mk_unit f (fst it) (snd it) dests false (o_name o))) E /\
                 ErrsOk E (flat_map (fun x : value * path => snd (eval_field S false (eval_obj S fr) o (fields_of (fst x)) (snd x) it)) nonnil)).
-      { intros b. destruct (HG mf (mk_unit f (fst it) (snd it) dests b (o_name o)) Hmf Hfu HSd) as [E [X O]].
+      { destruct (HG mf (mk_unit f (fst it) (snd it) dests false (o_name o)) Hmf Hfu HSd (Ub_false _ _ _ _ _)) as [E [X O]].
         - rewrite HF. exact Hgood.
-        - exists E. split; auto. now rewrite <- (HF b). }
+        - exists E. split; auto. now rewrite <- (HF false). }
       assert (Hasync : forall (b : bool) pieces,
-                (forall v, In v pieces -> u_field v = f /\ u_sel v = fst it /\ u_sub v = snd it) ->
+                Ub (mk_unit f (fst it) (snd it) dests b (o_name o)) ->
+                (forall v, In v pieces -> u_field v = f /\ u_sel v = fst it /\ u_sub v = snd it /\ u_batch v = b) ->
                 Permutation (flat_map u_items pieces) dests ->
                 exists E, xerrs (mk_xres [] pieces []) E /\
                   ErrsOk E (flat_map (fun x : value * path => snd (eval_field S false (eval_obj S fr) o (fields_of (fst x)) (snd x) it)) nonnil)).
-      { intros b pieces Hsame Hperm.
-        destruct (pieces_fail fr (mk_unit f (fst it) (snd it) dests b (o_name o)) pieces HG Hfu HSd Hsame Hperm) as [E [X O]].
+      { intros b pieces Hub Hsame Hperm.
+        destruct (pieces_fail fr (mk_unit f (fst it) (snd it) dests b (o_name o)) pieces HG Hfu HSd Hub Hsame Hperm) as [E [X O]].
         - rewrite HF. exact Hgood.
         - exists E. split; auto. now rewrite <- (HF b). }
       destruct sync; [apply Hsync|].
-      destruct (should_use_batch f).
-      { apply (Hasync true); [intros v Hv; apply split_par_same in Hv; exact Hv|apply split_par_pairs]. }
+      destruct (should_use_batch f) eqn:Esb.
+      { apply (Hasync true); [|intros v Hv; apply split_par_same4 in Hv; exact Hv|apply split_par_pairs].
+        intros Hnb. rewrite (NB Hnb on o _ f Hon Ef) in Esb. discriminate. }
       destruct (f_expensive f).
-      { apply (Hasync false); [intros v Hv; apply split_work_unit_same in Hv; tauto|rewrite split_work_unit_items; apply Permutation_refl]. }
+      { apply (Hasync false); [apply Ub_false|intros v Hv; apply split_work_unit_same in Hv; tauto|rewrite split_work_unit_items; apply Permutation_refl]. }
       destruct (f_external f).
-      { apply (Hasync false); [intros v Hv; apply split_par_same in Hv; exact Hv|apply split_par_pairs]. }
+      { apply (Hasync false); [apply Ub_false|intros v Hv; apply split_par_same4 in Hv; exact Hv|apply split_par_pairs]. }
       apply Hsync.
   Qed.
 
@@ -369,9 +412,9 @@ Section Fail.
     assert (Hgood' : forall it, In it all -> good (F it)).
     { intros it Hit f Hf. apply Hgood. apply Hmem. apply in_flat_map. eauto. }
     destruct (xerrs_concat (per_sel (ex mf) o nonnil false) F sels) as [E1 [X1 O1]].
-    { intros it Hit. apply (per_sel_fail fr mf o nonnil false it HG Hmf Hfu Hobj HSn). apply Hgood'. unfold all. apply in_or_app; auto. }
+    { intros it Hit. apply (per_sel_fail fr mf o nonnil false it (ex_intro _ oname Eo) HG Hmf Hfu Hobj HSn). apply Hgood'. unfold all. apply in_or_app; auto. }
     destruct (xerrs_concat (per_sel (ex mf) o nonnil true) F (key_item o)) as [E2 [X2 O2]].
-    { intros it Hit. apply (per_sel_fail fr mf o nonnil true it HG Hmf Hfu Hobj HSn). apply Hgood'. unfold all. apply in_or_app; auto. }
+    { intros it Hit. apply (per_sel_fail fr mf o nonnil true it (ex_intro _ oname Eo) HG Hmf Hfu Hobj HSn). apply Hgood'. unfold all. apply in_or_app; auto. }
     destruct (xerrs_app _ _ _ _ X1 X2) as [E12 [X12 M12]].
     match goal with |- context [xapp (mk_xres ?h [] []) _] =>
       destruct (xerrs_app (mk_xres h [] []) _ [] E12 (xerrs_heap h) X12) as [E [X M]] end.
@@ -545,7 +588,7 @@ Section Fail.
 
   Lemma ErrsOk_fail_all : forall (items : list (value * path)) e F,
     items <> [] ->
-    (exists f, In f F /\ forall it, In it items -> perr_sim (nest (snd it) e) f = true) ->
+    (exists f, In f F /\ forall it, In it items -> rel (nest (snd it) e) f = true) ->
     ErrsOk (map (fun it : value * path => nest (snd it) e) items) F.
   Proof.
     intros items e F Hne [f [Hf Hs]]. split.
@@ -555,7 +598,7 @@ Section Fail.
 
   Lemma GU_of_GR : forall fr, GR fr -> GU fr.
   Proof.
-    intros fr HR mf u Hmf Hfu HS Hgood.
+    intros fr HR mf u Hmf Hfu HS Hub Hgood.
     destruct mf as [|mf']; [inversion Hmf|].
     assert (Hmf' : fr <= mf') by lia. assert (Hfu' : fr <= fuel) by lia.
     set (items := u_items u) in *.
@@ -582,9 +625,9 @@ Section Fail.
       - rewrite Ee. unfold fail_all. eexists. split; [exists []; split; [constructor|reflexivity]|].
         cbn [x_errs]. rewrite app_nil_r. apply ErrsOk_fail_all.
         + intros Hnil. fold items in Hnil. unfold type_fails, res, outs in Hin. rewrite Hnil in Hin. contradiction.
-        + exists (mk_perr e []). split; [now rewrite <- Eres|]. intros it _. unfold nest. rewrite Hs. apply perr_sim_refl. }
+        + exists (mk_perr e []). split; [now rewrite <- Eres|]. intros it _. unfold nest. rewrite Hs. apply rel_refl. }
     cbn [exec_unit]. fold items. fold outs.
-    destruct (f_batch (u_field u) && u_batch u).
+    destruct (f_batch (u_field u) && u_batch u) eqn:Ebm.
     - (* batch *)
       destruct (first_failure outs) as [[e p]|] eqn:Eff; [|now apply Hall].
       destruct (first_failure_some u items e p Eff) as [itk [Hk [Ho Hp]]].
@@ -593,13 +636,16 @@ Section Fail.
       exists (nest p e). split.
       + unfold unit_fails. fold items. apply in_flat_map. exists itk. split; auto.
         pose proof (oc_spec fr u itk) as Hs. rewrite Ho in Hs. rewrite Hs, Hp. now left.
-      + intros it Hit. apply nest_sim. rewrite <- Hp. now apply HS.
+      + intros it Hit. unfold rel. destruct (Bool.bool_dec nb true) as [Hnb|Hnb];
+          [rewrite (Hub Hnb) in Ebm; discriminate|].
+        apply Bool.not_true_is_false in Hnb. rewrite Hnb.
+        apply nest_sim. rewrite <- Hp. now apply HS.
     - destruct (negb (f_expensive (u_field u))).
       + (* not expensive: stops at the first failing source *)
         destruct (first_failure outs) as [[e p]|] eqn:Eff; [|now apply Hall].
         destruct (first_failure_some u items e p Eff) as [itk [Hk [Ho Hp]]].
         exists [nest p e]. split; [exists []; split; [constructor|reflexivity]|]. split.
-        * intros e' [<-|[]]. exists (nest p e). split; [|apply perr_sim_refl].
+        * intros e' [<-|[]]. exists (nest p e). split; [|apply rel_refl].
           unfold unit_fails. fold items. apply in_flat_map. exists itk. split; auto.
           pose proof (oc_spec fr u itk) as Hs. rewrite Ho in Hs. rewrite Hs, Hp. now left.
         * intros _. discriminate.
@@ -617,10 +663,10 @@ Section Fail.
           -- rewrite Ex. exists E. split; auto. unfold type_fails in O. cbn [flat_map] in O. rewrite app_nil_r in O. now rewrite Hs.
           -- rewrite Ee. exists [nest (snd it) e]. split; [exists []; split; [constructor|reflexivity]|].
              unfold type_fails in Hin. cbn [flat_map] in Hin. rewrite app_nil_r in Hin. rewrite <- Hs in Hin. split.
-             ++ intros e' [<-|[]]. exists (mk_perr e []). split; auto. unfold nest. rewrite Hse. apply perr_sim_refl.
+             ++ intros e' [<-|[]]. exists (mk_perr e []). split; auto. unfold nest. rewrite Hse. apply rel_refl.
              ++ intros _. discriminate.
         * exists [nest (snd it) e]. split; [exists []; split; [constructor|reflexivity]|]. rewrite Hs. split.
-          -- intros e' [<-|[]]. exists (nest (snd it) e). split; [now left|apply perr_sim_refl].
+          -- intros e' [<-|[]]. exists (nest (snd it) e). split; [now left|apply rel_refl].
           -- intros _. discriminate.
   Qed.
 
@@ -632,3 +678,4 @@ Section Fail.
       split; [exact HR|now apply GU_of_GR].
   Qed.
 End Fail.
+End Rel.
